@@ -1,7 +1,44 @@
-(* C02 placeholder during construction *)
-From PD Require Import Base.Field Base.Matrix.
-Theorem C02_mtr_mmul :
-  forall (F : Type) (H : FieldOps F) (FL : FieldLaws F) n k m (A B : @mat F),
-    mtr n m (mmul n k m A B) = mmul m k n (mtr k m B) (mtr n k A).
-Proof. intros. apply mtr_mmul. Qed.
-Print Assumptions C02_mtr_mmul.
+(* C02 -- the filter posterior equals the exact Gaussian posterior of the
+   linearised model.  The solver step of Model/Solver.v is
+   predict (marginalise through the preconditioned transition), linearise,
+   correct (bayes_rule on the linearised constraint with zero data).  The
+   theorems identify each stage with the textbook covariance-form Kalman
+   filter of Spec/RTS.v on the closed-form integrated-Wiener transition. *)
+From Coq Require Import List Arith.
+From PD Require Import Base.Field Base.Matrix Base.Solve Model.Gauss Model.Prior Spec.RTS
+  Proofs.GaussProofs Proofs.FilterProofs Proofs.PriorProofs.
+Import ListNotations.
+
+Section C02.
+  Context {F : Type} `{FL : FieldLaws F}.
+
+  (* prediction = Kalman prediction with the plain transition, any scalings *)
+  Theorem C02_prediction_is_kalman_prediction :
+    forall n c (K : @cond F) (rv : @normal F),
+      c_marg n n c K rv
+      = let P := c_plain n n c K in kf_predict n c (c_A P) (c_b P) (c_Q P) rv.
+  Proof. exact c_marg_is_kalman_prediction. Qed.
+
+  (* the plain transition of the preconditioned IWP is the closed form, all q *)
+  Theorem C02_iwp_transition_closed_form :
+    forall q c (dt s2 : F), dt <> f0 ->
+      c_A (c_plain (S q) (S q) c (iwp_transition_1d q c dt s2)) = iwp_A_closed q dt /\
+      c_Q (c_plain (S q) (S q) c (iwp_transition_1d q c dt s2)) = iwp_Q_closed q dt s2.
+  Proof.
+    intros q c dt s2 Hdt.
+    exact (conj (iwp_plain_A_closed_form q c dt s2 Hdt) (iwp_plain_Q_closed_form q c dt s2)).
+  Qed.
+
+  (* correction = Kalman update  m - K(Hm + r),  P - K S K^T,  K = P H^T S^-1 *)
+  Theorem C02_correction_is_kalman_update :
+    forall inv n k c (Hm r R : @mat F) (rv : @normal F),
+      symmetric n (n_cov rv) ->
+      option_map snd
+        (bayes_rule inv n k c (from_linop_and_noise n k Hm (mkN r R)) (mzero k c) rv)
+      = kf_update inv n k c Hm r R rv.
+  Proof. exact bayes_rule_is_kalman_update. Qed.
+End C02.
+
+Print Assumptions C02_prediction_is_kalman_prediction.
+Print Assumptions C02_iwp_transition_closed_form.
+Print Assumptions C02_correction_is_kalman_update.
